@@ -5,3 +5,5 @@ pub mod helpers;
 pub mod instructions;
 pub mod state;
 pub mod version_info;
+#[cfg(ax_verif)]
+pub mod verif;
